@@ -382,8 +382,8 @@ theorem hidden_never_returned (db : List DbEntry) (acps : List SearchAcp) (id : 
     obtain ⟨⟨ht, hrc⟩, _⟩ := hm
     unfold DbEntry.classes
     constructor
-    · intro hmem; simp [List.contains_iff_mem, hmem] at hrc
-    · intro hmem; simp [List.contains_iff_mem, hmem] at ht
+    · intro hmem; simp [hmem] at hrc
+    · intro hmem; simp [hmem] at ht
 
 /-- Recycle-bin searches (`into_recycled`) return recycled entries only. -/
 theorem recycle_search_only_recycled (db : List DbEntry) (acps : List SearchAcp) (id : Identity)
